@@ -248,10 +248,20 @@ def carried_channels(repo: Repo, eff: Effects, f: Func, loop: ast.For, cls: Opti
         # accumulator uses
         append_only = kinds <= {"append", "extend"}
         private = induction | body_assigned
+        # positions derived from the induction variable inside the iteration (block_start = i * block_size, ...)
+        derived = set(induction)
+        changed = True
+        while changed:
+            changed = False
+            for st in ast.walk(loop):
+                if isinstance(st, ast.Assign) and len(st.targets) == 1 and isinstance(st.targets[0], ast.Name) and st.targets[0].id not in derived \
+                        and st.targets[0].id in body_assigned and ({x.id for x in ast.walk(st.value) if isinstance(x, ast.Name)} & derived):
+                    derived.add(st.targets[0].id)
+                    changed = True
         indexed_store = all(
             isinstance(node, ast.Subscript)
             and (k in ("store", "augstore") or k.startswith("callee "))
-            and ({x.id for x in ast.walk(node.slice) if isinstance(x, ast.Name)} & (induction if not k.startswith("callee ") else private))
+            and ({x.id for x in ast.walk(node.slice) if isinstance(x, ast.Name)} & (derived if not k.startswith("callee ") else private))
             and node.value is not None and (isinstance(node.value, ast.Name) or is_self_attr(node.value))
             for k, _, node in events
         )
